@@ -20,6 +20,7 @@ RULE = (
     "at or one beyond a bound, invalid enum input, or assignment over a non-default previous value"
     ' Also (added while the seeded-change rounds of DESIGN section 9 ran): Also: modules carrying tricky names and sitting in projects, change hooks that assign a sibling controller, and the stock classes after a program derived its own subclasses.'
 )
+RULE += " Rounds 12-14 of DESIGN section 9 added: every accepted assignment repeated on a module that is wired up inside a project; MetaModules whose user-defined controllers are named after the MetaModule's own controllers."
 ASSUMPTIONS = [
     "YAML min/max/default/enum tables are the declared domains",
     "unit-dependent ranges are not 'fixed ranges': only their in-range behaviour is claimed",
